@@ -42,6 +42,7 @@ import (
 	"time"
 
 	"github.com/tikv/client-go/v2/internal/logutil"
+	"github.com/tikv/client-go/v2/internal/simhook"
 	"github.com/twmb/murmur3"
 	"go.uber.org/zap"
 	"modernc.org/mathutil"
@@ -193,6 +194,7 @@ func (latches *Latches) release(lock *Lock, wakeupList []*Lock) []*Lock {
 }
 
 func (latches *Latches) releaseSlot(lock *Lock) (nextLock *Lock) {
+	simhook.Yield("latch.releaseSlot")
 	key := lock.keys[lock.acquiredCount-1]
 	slotID := lock.requiredSlots[lock.acquiredCount-1]
 	latch := &latches.slots[slotID]
@@ -242,6 +244,7 @@ func (latches *Latches) releaseSlot(lock *Lock) (nextLock *Lock) {
 }
 
 func (latches *Latches) acquireSlot(lock *Lock) acquireResult {
+	simhook.Yield("latch.acquireSlot")
 	key := lock.keys[lock.acquiredCount]
 	slotID := lock.requiredSlots[lock.acquiredCount]
 	latch := &latches.slots[slotID]
